@@ -13,38 +13,43 @@ these kernels in the source makes the corresponding theorem fail to build.
 namespace BarterModel.KernelsAgree
 open BarterModel
 
+/-- Shape-independent: unfold *everything generated for the group* (`gen_welford`: the listed kernels and whatever
+auxiliary functions the translator found by lookup, under whatever names) and the model's definitions, then let
+`grind` decide (field arithmetic, the comparison with the guard constant). Nothing depends on whether the source
+writes `match` on a bool, `if`/`else` or an early `return`, `x += e` or a fresh local, hoisted or renamed `let`s. -/
+local macro "welford_agree" : tactic => `(tactic|
+  first
+  | rfl
+  | (simp only [gen_welford, DataSet.calculateMean, DataSet.calculateRecurrenceRelationM,
+      DataSet.calculatePopulationVariance, Drawdown.welfordMean]; done)
+  | (simp only [gen_welford, DataSet.calculateMean, DataSet.calculateRecurrenceRelationM,
+      DataSet.calculatePopulationVariance, Drawdown.welfordMean]; grind))
+
 /-- `welford_online::calculate_mean` (source) = `DataSet.calculateMean` (model), no guard. -/
 theorem calculate_mean_agrees (prevMean nextValue count : Rat) :
     Generated.welford_online.calculate_mean prevMean nextValue count
-      = DataSet.calculateMean prevMean nextValue count := by
-  simp only [Generated.welford_online.calculate_mean, DataSet.calculateMean] <;> grind
+      = DataSet.calculateMean prevMean nextValue count := by welford_agree
 
 /-- the same kernel is `Drawdown.welfordMean`, the mean-drawdown recurrence of C18. -/
 theorem calculate_mean_agrees_drawdown (prev next count : Rat) :
-    Generated.welford_online.calculate_mean prev next count = Drawdown.welfordMean prev next count := by
-  simp only [Generated.welford_online.calculate_mean, Drawdown.welfordMean] <;> grind
+    Generated.welford_online.calculate_mean prev next count = Drawdown.welfordMean prev next count := by welford_agree
 
 /-- `welford_online::calculate_recurrence_relation_m` = `DataSet.calculateRecurrenceRelationM`. -/
 theorem calculate_recurrence_relation_m_agrees (prevM prevMean newValue newMean : Rat) :
     Generated.welford_online.calculate_recurrence_relation_m prevM prevMean newValue newMean
-      = DataSet.calculateRecurrenceRelationM prevM prevMean newValue newMean := by
-  simp only [Generated.welford_online.calculate_recurrence_relation_m,
-    DataSet.calculateRecurrenceRelationM] <;> grind
+      = DataSet.calculateRecurrenceRelationM prevM prevMean newValue newMean := by welford_agree
 
 /-- `welford_online::calculate_population_variance` = `DataSet.calculatePopulationVariance`. -/
 theorem calculate_population_variance_agrees (m count : Rat) :
     Generated.welford_online.calculate_population_variance m count
-      = DataSet.calculatePopulationVariance m count := by
-  simp only [Generated.welford_online.calculate_population_variance,
-    DataSet.calculatePopulationVariance] <;> grind
+      = DataSet.calculatePopulationVariance m count := by welford_agree
 
 /-- `welford_online::calculate_sample_variance` has no caller in the crate and no model definition;
 its closed form is pinned here (Bessel's correction, `0` below two values) so that a change of it
 is at least noticed. No property theorem depends on it. -/
 theorem calculate_sample_variance_form (m count : Rat) :
     Generated.welford_online.calculate_sample_variance m count
-      = if count < 2 then 0 else m / (count - 1) := by
-  simp only [Generated.welford_online.calculate_sample_variance] <;> grind
+      = if count < 2 then 0 else m / (count - 1) := by welford_agree
 
 /-- All kernels `DataSetSummary::update` / `Dispersion::update` are built from, at once. -/
 theorem welford_kernels_agree :
